@@ -11,8 +11,9 @@ History: a third of the shapes are reached through mutators (harness/history.py)
    repeated after 0..3 public setters (size, centre, radius, axes) and judged on the object's current geometry.
 Certificate: the hypotheses of `cpoly_dts_correct(_cw)` (strictly convex ccw, centre strictly inside) are decided
    exactly over Q on the stored vertices / centre and on the spheropolygon's kernel polygon (op `c14.hyp`).
-Known finding (known_findings.d/C14.json): nan / lost digits inside the arc range of a vertex for rounding radius 0
-   or tiny; classified narrowly by `tiny_radius_arc_defect`.
+Repaired finding (known_findings.d/C14.json, fixed in /repo 5df35a1): nan / lost digits inside the arc range of a
+   vertex for rounding radius 0 or tiny; the witness is a fixed case and radii 0 / 10^[-12,-3] core sizes are
+   generated, all judged at the normal tolerance.
 """
 import math
 from fractions import Fraction
@@ -40,9 +41,6 @@ ASSUMPTIONS = [
     "accuracy clause: |impl - exact| <= 1e-9 * (max centre-vertex distance + r); 1e-7 relative where |cos theta| < "
     "1e-6 (tan branch) — both far below any algebraic error",
     "the exact polygon centroid is the triangle-fan area centroid (Spec.polyCentroid) evaluated over Q",
-    "inside a degenerate arc range (rounding radius < 1e-6 core size) model and implementation are compared to "
-    "1e-6*scale only (both evaluate a cancelling discriminant, with different roundings); the implementation's nan / "
-    "lost digits there are the known finding ...:radius~0:arc-discriminant",
     "after mutators the oracle is evaluated on the object's current vertices / radius / axes (the property speaks "
     "about the current shape); with no mutator in between, on the case's geometry",
 ]
@@ -395,37 +393,6 @@ def tol_for(angles, scale, d_ref):
 
 
 
-KNOWN_R0_SIG = "ConvexSpheropolygon.distance_to_surface:boundary:radius~0:arc-discriminant"
-
-
-def tiny_radius_arc_defect(shape, angles, got, exact, near_only=False):
-    """mask of the entries that belong to the known floating-point defect of the arc branch for a (nearly) vanishing
-    rounding radius (r < 1e-6 core size): the reduced angle lies in the code's own arc range of a vertex (for r = 0:
-    it IS that vertex's direction, bit for bit) and the answer is nan or off by up to ~sqrt(eps)*size.  The arc
-    discriminant b**2 - 4ac = 4(|v|^2 cos^2 - |v|^2 + r^2) is 0 resp. ~r^2 in exact arithmetic
-    (spg_arc_r0_discriminant_zero) and is evaluated by cancellation of numbers of size |v|^2."""
-    poly = shape.polygon
-    r = float(shape.radius)
-    v = np.array(poly.vertices[:, :2], dtype=float) - np.array(poly.centroid[:2], dtype=float)
-    nv = np.linalg.norm(v, axis=1)
-    size = float(np.max(nv))
-    mask = np.zeros(len(angles), dtype=bool)
-    if not (r < 1e-6 * size):
-        return mask
-    th = np.arctan2(v[:, 1], v[:, 0])
-    th[th < 0] += 2 * np.pi
-    am = np.mod(angles, 2 * np.pi)
-    # the arc range of a vertex is within asin(r/|v|) of its direction (plus the rounding of the arctan2's)
-    width = 1.5 * r / nv + 3e-15
-    dd = np.abs(am[:, None] - th[None, :])
-    near = (dd <= width[None, :]) | (np.abs(dd - 2 * np.pi) <= width[None, :])
-    with np.errstate(all="ignore"):
-        loose = np.isnan(got) | (np.abs(got - exact) <= 1e-6 * size)
-    if near_only:
-        return near.any(axis=1)
-    return near.any(axis=1) & loose & ~(np.abs(got - exact) <= 1e-9 * size)
-
-
 def exact_distances(ctx, P, r, angles):
     """the specification evaluated on the ccw vertex list P (floats read as rationals): exact triangle-fan centroid
     and exact ray exit over Q (driver, Spec.polyCentroid / Spec.rayExit); for r > 0 the closed-form exit from
@@ -488,14 +455,6 @@ def eval_poly(ctx, case):
     exact, scale, c, us, unorm = exact_distances(ctx, P, r if sphero else 0.0, angles)
     tol = tol_for(angles, scale, exact)
     bad = ~(np.abs(got - exact) <= tol)  # also catches nan
-    known_nan = tiny_radius_arc_defect(shape, angles, got, exact) if sphero else np.zeros(len(angles), dtype=bool)
-    if np.any(known_nan):
-        k0 = int(np.argmax(known_nan))
-        ctx.fail(KNOWN_R0_SIG, "nan (or ~1e-8 relative error) for a direction inside the (degenerate) arc range of a "
-                 "vertex when the rounding radius is 0 or tiny: the arc discriminant cancels", case,
-                 {"angle": float(angles[k0]), "got": float(got[k0]), "exact": float(exact[k0]),
-                  "radius": float(shape.radius), "n": int(known_nan.sum())})
-        bad &= ~known_nan
     if np.any(bad):
         k = int(np.argmax(np.where(np.isnan(got), np.inf, np.abs(got - exact)) * bad))
         ctx.fail(cls + ".distance_to_surface:boundary",
@@ -505,8 +464,6 @@ def eval_poly(ctx, case):
     else:
         # defining residual (independent of the closed form): distance from the core polygon is r
         for k in range(0, len(us), 7):
-            if known_nan[k]:
-                continue
             pt = c + got[k] * us[k] / unorm[k]
             dd, db, inside = dist_to_polygon(pt, P)
             res = abs((dd if r > 0 else db) - r)
@@ -516,12 +473,12 @@ def eval_poly(ctx, case):
                          {"angle": float(angles[k]), "got": float(got[k]), "residual": res})
                 break
 
-    correspondence(ctx, case, shape, poly, sphero, cls, angles, r, got, scale, known_nan)
+    correspondence(ctx, case, shape, poly, sphero, cls, angles, r, got, scale)
     hypotheses(ctx, case, poly)
     requery_after_mutation(ctx, case, shape, sphero, cls, angles)
 
 
-def correspondence(ctx, case, shape, poly, sphero, cls, angles, r, got, scale, known_nan):
+def correspondence(ctx, case, shape, poly, sphero, cls, angles, r, got, scale):
     import coxeter
     # ------------- B: model at Float on the implementation's stored data
     V = np.array(poly.vertices[:, :2], dtype=float)
@@ -569,16 +526,7 @@ def correspondence(ctx, case, shape, poly, sphero, cls, angles, r, got, scale, k
     both_nan = np.isnan(m) & np.isnan(got)
     ref = np.where(np.isfinite(got), np.abs(got), 0.0)
     tb = tol_for(angles, scale, ref)
-    # the model squares by multiplication; the code's scalar `norm_v**2` goes through libm pow: the 1-ulp difference
-    # decides the sign of a discriminant that is 0 in exact arithmetic (known defect, reported under KNOWN_R0_SIG)
-    # (the model suffers the same cancellation with its own rounding: inside a degenerate arc range the two are only
-    #  compared to the accuracy the formula has there, ~sqrt(eps) * size)
-    if sphero:
-        degenerate = tiny_radius_arc_defect(shape, angles, got, got, near_only=True)
-        with np.errstate(all="ignore"):
-            tb = np.where(degenerate, np.maximum(tb, 1e-6 * scale), tb)
-            both_nan = both_nan | (degenerate & (np.isnan(m) | np.isnan(got)))
-    badb = ~((np.abs(m - got) <= tb) | both_nan | known_nan)
+    badb = ~((np.abs(m - got) <= tb) | both_nan)
     if np.any(badb):
         k = int(np.argmax(badb))
         ctx.disagree(op, case, {"angle": float(angles[k]), "impl": float(got[k]), "model": float(m[k]),
@@ -668,13 +616,6 @@ def requery_after_mutation(ctx, case, shape, sphero, cls, angles):
     exact2, scale2, _c, _us, _un = exact_distances(ctx, Pc, rc, sub)
     tol2 = tol_for(sub, scale2, exact2)
     bad = ~(np.abs(got2 - exact2) <= tol2)
-    if sphero:
-        kn = tiny_radius_arc_defect(shape, sub, got2, exact2)
-        if np.any(kn):
-            k0 = int(np.argmax(kn))
-            ctx.fail(KNOWN_R0_SIG, "nan / lost digits inside a degenerate arc range (rounding radius 0 or tiny) after " + "+".join(done),
-                     case, {"angle": float(sub[k0]), "radius": rc, "mutators": done})
-            bad &= ~kn
     if np.any(bad):
         kk = int(np.argmax(np.where(np.isnan(got2), np.inf, np.abs(got2 - exact2)) * bad))
         ctx.fail(cls + ".distance_to_surface:boundary:after-mutation",
@@ -792,9 +733,13 @@ FIXED_CASES = [
     {"shape": "cpoly", "kind": "rectangle", "ccw": [[2, -1], [2, 1], [-2, 1], [-2, -1]],
      "input": [[2, -1], [2, 1], [-2, 1], [-2, -1]], "order": "ccw", "info": {},
      "angles": [k * math.pi / 4 for k in range(-16, 17)] + [math.atan2(1, 2), math.atan2(1, 2) - 2 * math.pi]},
-    # known defect (known_findings.d/C14.json): radius 0, theta exactly at a vertex direction -> nan
+    # repaired defect (known_findings.d/C14.json, fixed 5df35a1): radius 0, theta exactly at a vertex direction
+    # gave nan; same core with radius 1e-9 as well
     {"shape": "spg", "kind": "r0-vertex-direction", "ccw": [[0.9, 1.2], [1.4, -2.8], [1.4, -1.2]],
      "input": [[0.9, 1.2], [1.4, -2.8], [1.4, -1.2]], "order": "ccw", "radius": 0.0, "info": {}, "no_history": True,
+     "angles": [1.7257930687188372, 1.0, 2.0, -1.0, 0.0, 1.7257930687188372 - 2 * math.pi]},
+    {"shape": "spg", "kind": "r0-vertex-direction", "ccw": [[0.9, 1.2], [1.4, -2.8], [1.4, -1.2]],
+     "input": [[0.9, 1.2], [1.4, -2.8], [1.4, -1.2]], "order": "ccw", "radius": 1e-9, "info": {}, "no_history": True,
      "angles": [1.7257930687188372, 1.0, 2.0, -1.0, 0.0, 1.7257930687188372 - 2 * math.pi]},
     # both axis orderings at every multiple of pi/4 in [-4pi, 4pi] (the eccentricity form is only right for a >= b)
     {"shape": "ellipse", "a": 1.0, "b": 2.0, "centre": [0.0, 0.0, 0.0],
